@@ -134,13 +134,15 @@ def run(pids, only=None, verbose=True):
     return results
 
 
-def run_benign(verbose=True, only=None):
+def run_benign(verbose=True, only=None, shard=None):
     """behaviour-preserving edits (renames, reordering, logging): NO property may report anything"""
     sys.path.insert(0, VERIF)
     with open(os.path.join(VERIF, "mutants", "benign.json")) as f:
         items = json.load(f)
     pids = sorted(f[:-3] for f in os.listdir(os.path.join(VERIF, "rules")) if f.startswith("C") and f.endswith(".py"))
     out = []
+    if shard:
+        items = items[shard[0]::shard[1]]
     for m in items:
         if only and not m["name"].startswith(only):
             continue
@@ -180,7 +182,11 @@ def run_benign(verbose=True, only=None):
 
 if __name__ == "__main__":
     if "--benign" in sys.argv:
-        res = run_benign(only=sys.argv[sys.argv.index("--only") + 1] if "--only" in sys.argv else None)
+        sh = None
+        if "--shard" in sys.argv:
+            a, b = sys.argv[sys.argv.index("--shard") + 1].split("/")
+            sh = (int(a), int(b))
+        res = run_benign(only=sys.argv[sys.argv.index("--only") + 1] if "--only" in sys.argv else None, shard=sh)
         bad = [r for r in res if r["status"] == "FALSE-ALARM"]
         print("benign edits: %d quiet, %d false alarms, %d skipped" % (sum(r["status"] == "quiet" for r in res), len(bad), sum(r["status"] == "skipped" for r in res)))
         sys.exit(1 if bad else 0)
